@@ -68,6 +68,11 @@ enum ModuleStatus {
         ancestor_index: usize,
     },
     PreLinked {
+        // kept until the module's cycle is closed: a link error in another member of the cycle has to
+        // bring this module back to `Unlinked`
+        #[unsafe_ignore_trace]
+        source: boa_ast::Module,
+        source_text: SourceText,
         environment: Gc<DeclarativeEnvironment>,
         context: SourceTextContext,
         ancestor_index: usize,
@@ -843,7 +848,14 @@ impl SourceTextModule {
                 // i. Assert: m.[[Status]] is linking.
                 // ii. Set m.[[Status]] to unlinked.
                 m.status.borrow_mut().transition(|status| match status {
+                    // `PreLinked` is the specification's `linking` for a module whose
+                    // InitializeEnvironment already ran but whose cycle is still open.
                     ModuleStatus::Linking {
+                        source,
+                        source_text,
+                        ..
+                    }
+                    | ModuleStatus::PreLinked {
                         source,
                         source_text,
                         ..
@@ -935,16 +947,20 @@ impl SourceTextModule {
                 // i. Assert: requiredModule.[[Status]] is one of linking, linked, evaluating-async, or evaluated.
                 // ii. Assert: requiredModule.[[Status]] is linking if and only if stack contains requiredModule.
                 debug_assert!(match &*required_module_src.status.borrow() {
-                    ModuleStatus::PreLinked { .. }
-                    | ModuleStatus::Linked { .. }
+                    ModuleStatus::Linked { .. }
                     | ModuleStatus::EvaluatingAsync { .. }
                     | ModuleStatus::Evaluated { .. } => true,
-                    ModuleStatus::Linking { .. } if stack.contains(&required_module) => true,
+                    ModuleStatus::Linking { .. } | ModuleStatus::PreLinked { .. }
+                        if stack.contains(&required_module) =>
+                    {
+                        true
+                    }
                     _ => false,
                 });
 
                 // iii. If requiredModule.[[Status]] is linking, then
-                let required_index = if let ModuleStatus::Linking { ancestor_index, .. } =
+                let required_index = if let ModuleStatus::Linking { ancestor_index, .. }
+                | ModuleStatus::PreLinked { ancestor_index, .. } =
                     &*required_module_src.status.borrow()
                 {
                     Some(*ancestor_index)
@@ -1004,6 +1020,7 @@ impl SourceTextModule {
                             ancestor_index: info,
                             context,
                             environment,
+                            ..
                         } => ModuleStatus::Linked {
                             ancestor_index: info,
                             context,
@@ -1954,7 +1971,13 @@ impl SourceTextModule {
 
         // 16. Set module.[[Context]] to moduleContext.
         self.status.borrow_mut().transition(|state| match state {
-            ModuleStatus::Linking { ancestor_index, .. } => ModuleStatus::PreLinked {
+            ModuleStatus::Linking {
+                ancestor_index,
+                source,
+                source_text,
+            } => ModuleStatus::PreLinked {
+                source,
+                source_text,
                 environment: env,
                 ancestor_index,
                 context: SourceTextContext {
